@@ -243,7 +243,7 @@ def partition_fault_batch(ctx, accepted):
     nsites = 4 if ctx.thorough else 2
     bases = []
     for t in accepted:
-        spec = G.generate(t["seed"], t["index"], t["profile"])
+        spec = distwork.get_spec(t)
         pat = G.known_patterns(spec)
         if not any(pat.values()) and G.stats(spec)["ncomm"] >= 1:
             bases.append(t)
@@ -260,7 +260,8 @@ def partition_fault_batch(ctx, accepted):
                 else:
                     orders.append([distwork.ORDER_MODES[(k_i + site) % 2]])
             tasks.append({"seed": t["seed"], "index": t["index"], "profile": t["profile"],
-                          "faults": [list(f) for f in half], "orders": orders})
+                          "faults": [list(f) for f in half], "orders": orders,
+                          **({"spec": t["spec"]} if "spec" in t else {})})
     try:
         results = distwork.run_pool(distwork.c10_partfault_multi_unit, tasks, deadline_s=900 if ctx.thorough else 300)
     except distwork.WorkTimeout as e:
@@ -360,6 +361,12 @@ def run(ctx: common.Ctx):
         base_tasks.append({"seed": 0, "index": spec["index"], "profile": "reuse", "faults": [],
                            "spec": spec, "nofault": True})
         n_family += 1
+    # hand-built family: ranks with an EMPTY outputs dict (idle / spare ranks) at every position
+    # next to communicating ranks; these are bases for faults too (a send aimed at the idle rank ...)
+    n_idle = 0
+    for spec in G.idle_family():
+        base_tasks.append({"seed": 0, "index": spec["index"], "profile": "idle", "faults": [], "spec": spec})
+        n_idle += 1
     try:
         base_results = distwork.run_pool(distwork.c10_unit, base_tasks, deadline_s=600)
     except distwork.WorkTimeout as e:
@@ -368,11 +375,11 @@ def run(ctx: common.Ctx):
                 if not t.get("nofault") and not r.get("timeout") and all(x["status"] == "ok" for x in r["ranks"])]
     partition_fault_batch(ctx, accepted)
     ctx.coverage["base_programs"] = {"generated": nprog, "accepted_and_faulted": len(accepted),
-                                     "reuse_family_programs": n_family}
+                                     "reuse_family_programs": n_family, "idle_rank_family_programs": n_idle}
     # phase 2: every single fault at every communication operation of the accepted programs
     tasks = []
     for base in accepted:
-        spec = G.generate(base["seed"], base["index"], base["profile"])
+        spec = distwork.get_spec(base)
         sites = G.fault_sites(spec)
         for kind, site in sites:
             tasks.append(dict(base, faults=[[kind, site, 0]]))
@@ -391,7 +398,7 @@ def run(ctx: common.Ctx):
     # seeded pairs
     for _ in range(npairs if accepted else 0):
         base = rng.choice(accepted)
-        spec = G.generate(base["seed"], base["index"], base["profile"])
+        spec = distwork.get_spec(base)
         sites = G.fault_sites(spec)
         if len(sites) < 2:
             continue
